@@ -59,6 +59,14 @@ def contexts(version, key, wrapped, locator):
         od.pop("object_refs", None)
         od["objects"] = {"0": wrapped}
         yield "in-observed-data", lambda: copy.deepcopy(od), ("objects", "0")
+    if cat == "observables" and version == "2.1" and isinstance(wrapped, dict) and wrapped.get("spec_version") == "2.1" and "id" in wrapped:
+        # 'spec_version' is optional on a 2.1 cyber observable: the same object without it, on its own and as a bundle member
+        bare = {k: v for k, v in wrapped.items() if k != "spec_version"}
+        yield "parse(dict)/implicit-version", lambda: copy.deepcopy(bare), locator
+        yield "parse(text)/implicit-version", lambda: json.dumps(bare), locator
+        b2 = {"type": "bundle", "id": BUNDLE_ID, "objects": [bare]}
+        yield "in-bundle/implicit-version", lambda: copy.deepcopy(b2), ("objects", 0) + tuple(locator)
+        yield "in-bundle(text)/implicit-version", lambda: json.dumps(b2), ("objects", 0) + tuple(locator)
 
 
 def run_instance(case, part):
